@@ -1332,6 +1332,29 @@ def rule_sumcounters(ctx, kernels, rule="sumcounters"):
         for p, s in F.param_attr().get(k.key, {}).items():
             if "other.n_added_records" in s:
                 ona = p
+        if na is None and ona is None:
+            # the kernel does not handle the bookkeeping counters: then every method that runs it adds the other sketch's counters to
+            # its own, once, on every path that reaches the kernel (`self.n_added_records += other.n_added_records`, in place)
+            sites = [c for c in F.calls_to(k) if c.caller.cls is not None]
+            if not sites:
+                ctx.ob(rule, k, k.node, k.name, "merge kernel receives both bookkeeping arrays", None)
+                continue
+            for site in {id(c.caller): c for c in sites}.values():
+                meth = site.caller
+                wm = F.walk(meth)
+                oparam = next((p_ for p_ in meth.params if p_ != "self"), "other")
+                res = []
+                for kc in [e for e in wm.events if e.kind == "call" and e.callee is k]:
+                    rets = [r for r in wm.events if r.kind == "ret" and kc in on_path(wm.events, r)]
+                    for r in rets:
+                        adds = [x for x in on_path(wm.events, r) if x.kind == "attrstore" and x.target == "self.n_added_records"]
+                        okk = len(adds) == 1 and not adds[0].loops and isinstance(adds[0].node, ast.AugAssign) and isinstance(adds[0].node.op, ast.Add) \
+                            and unparse(adds[0].node.value) == "%s.n_added_records" % oparam
+                        res.append((okk, "both bookkeeping counters summed once by the method" if okk else
+                                    "on a path through the merge the method does not add %s.n_added_records to its own exactly once" % oparam, fact_strs(r)))
+                agg(ctx, rule, meth, meth.node, "%s: self.n_added_records += %s.n_added_records" % (meth.qualname, oparam),
+                    "the bookkeeping counters of the result are the sums of the operands'", res or [(False, "no path reaches the merge kernel", [])])
+            continue
         if na is None or ona is None:
             ctx.ob(rule, k, k.node, k.name, "merge kernel receives both bookkeeping arrays", None)
             continue
